@@ -255,6 +255,91 @@ def audit(prop):
             "bad": bad, "axioms": axioms, "names": names, "modules": mods, "raw": out if rc != 0 else ""}
 
 
+TIE_LEAN = r"""
+import Lean
+import ColoVerif.Properties.%(prop)s
+import Driver.%(prop)s
+open Lean
+
+namespace TieAudit
+/-- constants used by the type and the value of `n`; proofs of theorems are not entered -/
+def usedBy (env : Environment) (n : Name) : Array Name :=
+  match env.find? n with
+  | none => #[]
+  | some ci =>
+    let t := ci.type.getUsedConstants
+    match ci with
+    | .defnInfo v => t ++ v.value.getUsedConstants
+    | .opaqueInfo v => t ++ v.value.getUsedConstants
+    | .inductInfo v => t ++ v.ctors.toArray
+    | _ => t
+
+set_option linter.unusedVariables false in
+partial def closure (env : Environment) (roots : Array Name) : NameSet := Id.run do
+  let mut seen : NameSet := {}
+  let mut todo := roots
+  while !todo.isEmpty do
+    let n := todo.back!
+    todo := todo.pop
+    if seen.contains n then continue
+    seen := seen.insert n
+    for m in usedBy env n do
+      if !seen.contains m then todo := todo.push m
+    -- a `partial def` is an opaque constant to the kernel; its body lives in `<name>._unsafe_rec`
+    -- (and, in general, in whatever `implemented_by` names): follow the code that actually runs
+    let ur := n.str "_unsafe_rec"
+    if env.contains ur && !seen.contains ur then todo := todo.push ur
+    if let some impl := Lean.Compiler.getImplementedBy? env n then
+      if !seen.contains impl then todo := todo.push impl
+  return seen
+
+def moduleOf (env : Environment) (n : Name) : String :=
+  match env.getModuleIdxFor? n with
+  | some i => (env.header.moduleNames[i.toNat]!).toString
+  | none => "_here"
+
+def has (s sub : String) : Bool := (s.splitOn sub).length > 1
+
+def isAux (n : Name) : Bool := n.isInternal || has n.toString "match_" || has n.toString "._" || has n.toString ".inst" || has n.toString "instDecidable"
+
+run_cmd do
+  let env ← getEnv
+  let exec := closure env #[`main]
+  for t in [%(names)s] do
+    let some ci := env.find? t | IO.println s!"TIE {t} missing"
+    let st := closure env ci.type.getUsedConstants
+    let ours := st.toList.filter fun n =>
+      (`ColoVerif).isPrefixOf n && !isAux n && (match env.find? n with | some (.defnInfo _) => true | _ => false)
+    let gen := ours.filter fun n => has (moduleOf env n) "ColoVerif.Gen."
+    let ex := ours.filter fun n => exec.contains n && !has (moduleOf env n) "ColoVerif.Gen."
+    let spec := ours.filter fun n => !exec.contains n && !has (moduleOf env n) "ColoVerif.Gen."
+    IO.println s!"TIE {t} executed={ex.length} generated={gen.length} spec={spec.length} | {" ".intercalate (ex.map toString)} | {" ".intercalate (gen.map toString)} | {" ".intercalate (spec.map toString)}"
+end TieAudit
+"""
+
+
+def tie_audit(prop, names):
+    """Which definitions do the property theorems speak about?  For every property theorem: the
+    ColoVerif definitions its STATEMENT mentions (transitively through definitions, never through
+    proofs), split into (a) executed: reachable from `main` of drv_<prop>, i.e. run against the C++ by
+    the correspondence on every check, (b) generated: defined in a ColoVerif.Gen.* module regenerated
+    from the source on every check, (c) spec-level: neither (predicates, folds over op sequences,
+    reference semantics).  A theorem with no (a) and no (b) is not about the code at all."""
+    d = lean_dir()
+    os.makedirs(os.path.join(CACHE, "audit"), exist_ok=True)
+    f = os.path.join(CACHE, "audit", "Tie_%s_%d.lean" % (prop, os.getpid()))
+    with open(f, "w") as fh:
+        fh.write(TIE_LEAN % {"prop": prop, "names": ", ".join("`" + n for n in names)})
+    rc, out = sh(["lake", "env", "lean", f], cwd=d, timeout=1800)
+    os.unlink(f)
+    res = {}
+    for ln in out.splitlines():
+        m = re.match(r"TIE (\S+) executed=(\d+) generated=(\d+) spec=(\d+) \| (.*?) \| (.*?) \| (.*)$", ln)
+        if m:
+            res[m.group(1)] = {"executed": m.group(5).split(), "generated": m.group(6).split(), "spec_level": m.group(7).split()}
+    return {"per_theorem": res, "rc": rc, "raw": out[-3000:] if (rc != 0 or len(res) != len(names)) else ""}
+
+
 # --------------------------------------------------------------------------
 # C++ side
 # --------------------------------------------------------------------------
